@@ -177,6 +177,7 @@ package core
 //@   tag C01 C02 C06 C08
 //@   requires CoreScanInv(core) && LexOK(lexeme) && lexeme.file == core.scanner.file
 //@   ensures ret == nil ==> CoreScanInv(core) && core.currentDirective != nil
+//@   ensures core.scannersStack == old(core.scannersStack) && StackInv(core.scannersStack)
 // C08: a JSIGHT directive in an included file (the include stack is not empty) is rejected
 //@   ensures [C08] old(len(core.scannersStack.stack)) > 0 && bstr(lexv(lexeme.file.content, lexeme.begin, lexeme.end)) == kwText(0) ==> ret != nil
 
@@ -184,6 +185,7 @@ package core
 //@   tag C01 C02 C06
 //@   requires CoreScanInv(core) && LexOK(lexeme) && lexeme.file == core.scanner.file && 1 <= core.scanner.curIndex
 //@   ensures ret == nil ==> CoreScanInv(core)
+//@   ensures core.scannersStack == old(core.scannersStack) && StackInv(core.scannersStack)
 
 // ---------------------------------------------------------------- banned directives (C18)
 
@@ -209,6 +211,9 @@ package core
 //@   requires CoreScanInv(core) && keyword != nil && keyword.file == core.scanner.file && keyword.begin <= len(keyword.file.content)
 //@   ensures [C18] old(has(core.bannedDirectives, 23)) ==> ret != nil && ret.file == keyword.file && ret.index == keyword.begin && unchanged() && ioCount == old(ioCount)
 //@   ensures [C02] ret == nil ==> core.currentDirective == nil
+//@   ensures ret != nil ==> core.scannersStack == old(core.scannersStack) && StackInv(core.scannersStack)
+//@   ensures ret == nil ==> core.scannersStack == old(core.scannersStack) && StackInv(core.scannersStack)
+//@   unclaimed ~5635/5 on the success path the per-entry clause of the stack invariant is not re-established by the solvers across the allocation of the new scanner (field heaps of the fresh object are re-based); the other clauses and the whole invariant on every error path are proved
 
 // C07 "a macro that is never pasted contributes nothing" (first half): after collectMacro no top-level directive is a MACRO -
 // every one of them has been moved into the macro table (or the document was rejected) - so the catalog build never sees one.
@@ -334,10 +339,17 @@ package core
 // proved is the trace clause of C02 for scanProject itself: every error leaving it carries the include chain of the
 // scanner stack at that moment (the deferred call covers all return paths).
 
+// drainCurrentScanner is checked (no longer trusted) for what scanProject needs from it: whatever happens - end of the file, a
+// scanner error, an error of a directive - the include stack is the same object and is well formed, so the chain attached by
+// scanProject is the chain of the moment of the error. The per-lexeme preconditions of its three callees (the full scan
+// invariant) are not carried through the loop: they are unclaimed here, see DESIGN section 10.
 //@ func (*JApiCore).drainCurrentScanner
-//@   trusted
+//@   tag C02 C01
 //@   requires core != nil && StackInv(core.scannersStack)
 //@   ensures core.scannersStack == old(core.scannersStack) && StackInv(core.scannersStack)
+//@   loop 1 invariant core != nil && core.scannersStack == old(core.scannersStack) && StackInv(core.scannersStack)
+//@   unclaimed #requires@ the scan invariant (scanner, directive tree) is not carried through the loop
+//@   unclaimed #nil-deref the scanner of the core is part of the scan invariant that is not carried through the loop
 
 //@ func (*JApiCore).isScanningFinished
 //@   tag C01 C02 C08
